@@ -132,9 +132,13 @@ def _newdir() -> str:
 # ---------------------------------------------------------------------------------------------------------
 # (A) project generation, run, judge
 
-def _dep_call(i: int, st: list, cons: T.Optional[str]) -> str:
+def _dep_call(i: int, st: list, cons: T.Optional[str], static: bool = False) -> str:
     _, req, af, fb = st
     kw = []
+    if static:
+        # dependency.yaml: "Tells the dependency provider to try to get static libraries": which variant, not whether
+        # and from where - the policy outcome is the same (the fallback subproject is then built with default_library=static)
+        kw.append('static: true')
     if cons:
         kw.append(f"version: '{cons}'")
     if req in ('true', 'false'):
@@ -161,7 +165,7 @@ def tree_a(cfg: dict, steps: T.Sequence[list]) -> T.Dict[str, str]:
         elif st[0] == 'ovr':
             body += f"meson.override_dependency('foo', declare_dependency(version: '{st[1]}'))\nmessage('R{i}:ovr')\n"
         else:
-            body += _dep_call(i, st, cfg['cons'])
+            body += _dep_call(i, st, cfg['cons'], bool(cfg.get('static')))
     files['src/meson.build'] = body
     files['src/meson.options'] = ("option('f_auto', type: 'feature', value: 'auto')\n"
                                   "option('f_enabled', type: 'feature', value: 'enabled')\n"
@@ -338,7 +342,7 @@ def classify_a(case: dict) -> T.Tuple[str, bool, bool]:
     weak = len({s.key() for s in alts}) > 1
     s = alts[0]
     last = next((p for p in reversed(s.paths) if p), 'none')
-    cls = ('A-hist/' if case.get('prior') else 'A-seq/' if case.get('seq') else 'A-cell/') + last
+    cls = ('A-hist/' if case.get('prior') else 'A-static/' if case['cfg'].get('static') else 'A-seq/' if case.get('seq') else 'A-cell/') + last
     if s.error_at is not None:
         cls += '+error'
     return cls, weak, R.nontrivial_a(case['cfg'], case['steps'])
@@ -1227,7 +1231,12 @@ def run(ctx: Ctx) -> None:
     else:
         hist = rnd.sample(hist, min(len(hist), 6000))
     ctx.ev.extra['A_history_cells_run'] = len(hist)
-    seqs = seqs + hist
+    # static family: the same cells with `static: true` on every lookup (cells in which a subproject can provide the name)
+    stat = [{'cfg': dict(c['cfg'], static=True), 'steps': c['steps']} for c in table
+            if len(c['steps']) == 1 and (c['cfg']['wrap'] != 'none' or c['cfg']['sp_ovr'] or c['steps'][0][3] != 'none')]
+    stat = rnd.sample(stat, min(len(stat), ctx.n(260, 4000)))
+    ctx.ev.extra['A_static_cells_run'] = len(stat)
+    seqs = seqs + hist + stat
     ctx.ev.extra['A_table_size'] = len(table)
     ctx.ev.extra['A_cells_run'] = len(cells)
     ctx.ev.extra['A_sequences_run'] = len(seqs)
